@@ -167,6 +167,15 @@ EQUIVALENT = {
  ('generate.go', 382, 'sibling-field'): 'does not change which function is called with a non-empty list and an injector set',
  ('generate.go', 547, 'delete-call'): 'the spec under test always has linux resources when a block I/O class is set',
  ('generate.go', 461, 'sibling-field'): 'the mount list is assigned afresh two lines below',
+ # batch 6
+ ('mount.go', 53, 'negate-if'): 'mount propagation query: excluded by design',
+ ('adjustment.go', 130, 'sibling-field'): 'both initialisers create the linux section first',
+ ('update.go', 133, 'sibling-field'): 'adds an empty CPU section: no field of it is set', ('update.go', 174, 'sibling-field'): 'adds an empty CPU section: no field of it is set',
+ ('result.go', 59, 'delete-assign'): 'appending to a nil environment is the same',
+ ('result.go', 1074, 'sibling-field'): 'the owners copy is taken of the target of an ignore-failure update; annotation claims only exist for the container being created, which an update cannot target',
+ ('hooks.go', 28, 'sibling-field'): 'Hooks.Append has no callers in pkg/ (the harness uses it only to build the runtime\'s original container, identically on both sides of every comparison)',
+ ('hooks.go', 30, 'sibling-field'): 'as above', ('hooks.go', 32, 'sibling-field'): 'as above',
+ ('hooks.go', 98, 'sibling-field'): 'OCI to NRI conversion on the runtime side, no claimed property',
 }
 cnt = collections.Counter(r['outcome'].split(' (')[0] for r in rs)
 print(len(rs), 'mutants:', dict(cnt))
